@@ -363,3 +363,6 @@ func containsPositive(txt, s string) bool {
 		from = i + 1
 	}
 }
+
+// ParamIndex is the index of v among the parameters of the graph's function (-1 if none).
+func (g *Graph) ParamIndex(v *types.Var) int { return g.paramIndex(v) }
